@@ -83,3 +83,13 @@ Print Assumptions C12_verifier_iff.
 Print Assumptions C12_best_checksums.
 Print Assumptions C12_entry_from_hasher.
 Print Assumptions C12_entry_from_hasher_lowercase_hex.
+
+(* the hashing writers behind a target that accepts only part of a Write (repair bcd84a3; reported by the r12 and the r13 hunt):
+   for ANY history of writes and ANY accepted amounts every hasher's length and digest are those of the bytes the target holds *)
+Require H15.
+Theorem C12_writers_behind_short_writes : forall H names hs ws, new_hashers names = Some hs ->
+  let st := fold_left H15.short_write ws {| w_hashers := hs; w_target := [] |} in
+  w_target st = List.concat (map (fun pn => firstn (snd pn) (fst pn)) ws) /\
+  Forall (fun h => hasher_sum H h = H (h_alg h) (w_target st) /\ h_size h = BinInt.Z.of_nat (List.length (w_target st))) (w_hashers st).
+Proof. exact H15.short_writes_keep_hashers_and_target_equal. Qed.
+Print Assumptions C12_writers_behind_short_writes.
